@@ -30,12 +30,20 @@ BoundKiB(inlen, comp) == AllocFloorKiB + (200 * inlen) \div 1024 + 1 + (IF comp 
 \* the records that surfaced are records of the original, not more of them (a partial trailing
 \* message / batch is dropped by design; what surfaces must be unaltered)
 NoDifferentRecords(got) == ToSet(got) \subseteq ToSet(orig) /\ Len(got) <= Len(orig)
+\* "strict" inputs are consistent (every CRC and enclosing length recomputed) except for ONE length / count that
+\* disagrees with the data, or junk trailing inside a length-delimited extent: the decode must fail, or return
+\* exactly the original records, or flag its result as partial itself - silently dropping records is wrong data
+\* (in a fetch block the digests of each batch end with "~cut": dropping whole trailing batches after at least one
+\* complete batch is FetchResponseBlock's documented behaviour)
+WholeBatchPrefix(got) == /\ Len(got) > 0 /\ Len(got) < Len(orig) /\ got = SubSeq(orig, 1, Len(got)) /\ got[Len(got)] = "~cut"
+ExactOrFlagged(got, partial) == got = orig \/ (partial /\ NoDifferentRecords(got)) \/ WholeBatchPrefix(got)
 
 DecClauses ==
      When(E.res \in {"panic", "crash"}, "no_panic")
   \cup When(E.res = "hang", "no_hang")
-  \cup When(E.res = "oom" \/ E.alloc > BoundKiB(E.inlen, E.comp), "alloc_proportional")
+  \cup When(E.res = "oom" \/ E.alloc > BoundKiB(E.inlen, E.comp) + E.allow, "alloc_proportional")
   \cup When(E.dmg /\ E.res = "ok" /\ ~NoDifferentRecords(E.got), "crc_or_length_damage_is_error")
+  \cup When(E.strict /\ E.res = "ok" /\ ~ExactOrFlagged(E.got, E.partial), "crc_or_length_damage_is_error")
   \cup When(E.res \notin {"ok", "err", "panic", "crash", "hang", "oom"}, "unclassified_result")
 
 \* the primitive contract, on the real primitive's outcome
